@@ -443,3 +443,123 @@ def random_doc(rng, max_bytes=2048):
             break
         out.append(c)
     return "".join(out)
+
+
+# --------------------------------------------------------------------------- documents for quick fixes
+
+def _na(rng, lo=1, hi=3):
+    return "".join(rng.choice(NA) for _ in range(rng.randint(lo, hi)))
+
+
+def ml_expr(rng, ty, ind="  "):
+    """A multi-line expression of the given type (Int, String, List, Bool, Option) with non-ASCII text inside.
+    `ind` is the indentation of the statement it belongs to."""
+    i1 = ind + "  "
+    k = rng.random()
+    s = '"%s"' % _na(rng)
+    if ty == "Int":
+        if k < 0.3:
+            return "pick(\n%s%d,\n%s%s.len(),\n%s)" % (i1, rng.randint(0, 9), i1, s, ind)
+        if k < 0.5:
+            return "if flag() {\n%s%s.len()\n%s} else {\n%s%d\n%s}" % (i1, s, ind, i1, rng.randint(0, 9), ind)
+        if k < 0.7:
+            return "match maybe() {\n%sSome(v) => v\n%sNone => %s.len()\n%s}" % (i1, i1, s, ind)
+        if k < 0.85:
+            return "[\n%s1,\n%s%s.len(),\n%s].len()" % (i1, i1, s, ind)
+        return "pick(%s.len(),\n%s2)" % (s, i1)
+    if ty == "String":
+        if k < 0.4:
+            return '"%s\n%s%s\n%s"' % (_na(rng), i1, _na(rng), _na(rng, 0, 2))
+        if k < 0.7:
+            return "glue(\n%s%s,\n%s%s,\n%s)" % (i1, s, i1, '"b"', ind)
+        return "if flag() {\n%s%s\n%s} else {\n%s\"\"\n%s}" % (i1, s, ind, i1, ind)
+    if ty == "List":
+        if k < 0.6:
+            return "[\n%s1,\n%s%s.len(),\n%s3,\n%s]" % (i1, i1, s, i1, ind)
+        return "[%s.len(),\n%s2]" % (s, i1)
+    if ty == "Bool":
+        if k < 0.5:
+            return "(flag() &&\n%s%s.len() > 0)" % (i1, s)
+        return "both(\n%sflag(),\n%s%s == \"\",\n%s)" % (i1, i1, s, ind)
+    return "Some(\n%s%s.len(),\n%s)" % (i1, s, ind)
+
+
+LINT_KINDS = ["unnecessary_let", "unnecessary_return", "unused_let", "unused_value", "repeated_bool", "list_len_compare",
+              "unreachable_arm", "missing_cases", "unused_type_param", "unused_import", "unused_param", "string_concat",
+              "float_int", "let_after_multiline"]
+
+
+def lint_fun(rng, kind, n):
+    """Source of one function (or item) that draws the fixable lint `kind` on a multi-line construct."""
+    ty = rng.choice(["Int", "String", "List"])
+    tyname = {"Int": "Int", "String": "String", "List": "List<Int>"}[ty]
+    lead = ""
+    if rng.random() < 0.5:
+        lead = "  let s%d = \"%s\" " % (n, _na(rng))          # non-ASCII in front, on the same line
+        pre = lead
+    else:
+        pre = "  "
+    use = ("  println(s%d)\n" % n) if lead else ""
+    cm = ("  // %s\n" % _na(rng, 1, 4)) if rng.random() < 0.4 else ""
+    if kind == "unnecessary_let":
+        return "fun ul%d(): %s {\n%s%s%slet x = %s\n  x\n}\n" % (n, tyname, cm, use and "", pre, ml_expr(rng, ty)) if not lead else \
+            "fun ul%d(): %s {\n%s%slet x = %s\n  x\n}\n" % (n, tyname, cm, pre, ml_expr(rng, ty))
+    if kind == "unnecessary_return":
+        return "fun ur%d(): %s {\n%s%sreturn %s\n}\n" % (n, tyname, cm, pre, ml_expr(rng, ty))
+    if kind == "unused_let":
+        return "fun uv%d() {\n%s%slet unused = %s\n  println(\"%s\")\n%s}\n" % (n, cm, pre, ml_expr(rng, ty), _na(rng), use)
+    if kind == "let_after_multiline":
+        return "fun lm%d(): Int {\n%s  let t = %s\n  let unused = t let y = 1\n  y\n}\n" % (n, cm, ml_expr(rng, "String"))
+    if kind == "unused_value":
+        v = rng.choice(["[\n    1,\n    2,\n  ]", "\"%s\n    %s\"" % (_na(rng), _na(rng)), "[1,\n    2]"])
+        return "fun uu%d(): %s {\n%s%s%s\n  %s\n}\n" % (n, tyname, cm, pre, v, ml_expr(rng, ty))
+    if kind == "repeated_bool":
+        op = rng.choice(["||", "&&"])
+        return "fun rb%d(x: Bool, y: Bool): Bool {\n%s%sx %s\n    %s %s\n    x\n}\n" % (n, cm, pre, op, ml_expr(rng, "Bool", "    "), op) \
+            if rng.random() < 0.5 else \
+            "fun rb%d(x: Bool, y: Bool): Bool {\n%s%sx %s\n    y %s\n    x\n}\n" % (n, cm, pre, op, op)
+    if kind == "list_len_compare":
+        c = rng.choice(["%s.len() == 0", "%s.len() != 0", "0 == %s.len()", "%s.len() > 0"]) % ml_expr(rng, "List")
+        return "fun ll%d() {\n%s%sif %s {\n    println(\"%s\")\n  }\n%s}\n" % (n, cm, pre, c, _na(rng), use)
+    if kind == "unreachable_arm":
+        return ("fun ua%d(c: Tint): String {\n%s%smatch c {\n    Red => %s\n    _ => \"%s\"\n    Green => %s\n    Blue => \"b\"\n  }\n}\n"
+                % (n, cm, pre, ml_expr(rng, "String", "    "), _na(rng), ml_expr(rng, "String", "    ")))
+    if kind == "missing_cases":
+        return "fun mc%d(c: Tint): String {\n%s%smatch c {\n    Red => %s\n  }\n}\n" % (n, cm, pre, ml_expr(rng, "String", "    "))
+    if kind == "unused_type_param":
+        return rng.choice(["fun tp%d<T,\n  U>(x: U): U {\n%s  x\n}\n", "fun tp%d<T>(): Int {\n%s  1\n}\n",
+                           "fun tp%d<\n  T,\n  U,\n>(x: T): T {\n%s  x\n}\n"]) % (n, cm)
+    if kind == "unused_param":
+        return "fun up%d(\n  a: Int,\n  label: String, // %s\n  b: Int,\n): Int {\n%s  a + b\n}\n" % (n, _na(rng), cm)
+    if kind == "string_concat":
+        return "fun sc%d(): String {\n%s%s%s +\n    %s\n}\n" % (n, cm, pre, ml_expr(rng, "String"), ml_expr(rng, "String", "    "))
+    if kind == "float_int":
+        return "fun fi%d(): Float {\n%s%s1.5 +\n    // %s\n    2.5\n}\n" % (n, cm, pre, _na(rng))
+    if kind == "unused_import":
+        return "// %s\nimport \"__fs.gdn\" as myfs%d\n" % (_na(rng), n)
+    raise ValueError(kind)
+
+
+LINT_PRELUDE = ("fun pick(a: Int, b: Int): Int { a + b }\nfun flag(): Bool { True }\nfun maybe(): Option<Int> { Some(1) }\n"
+                "fun glue(a: String, b: String): String { a ^ b }\nfun both(a: Bool, b: Bool): Bool { a && b }\n"
+                "enum Tint { Red, Green, Blue }\n")
+
+
+def lint_program(rng, kinds=None):
+    """A document in which fixable lints apply to expressions that span several lines."""
+    kinds = kinds or [rng.choice(LINT_KINDS) for _ in range(rng.choice([1, 1, 2, 3, 4]))]
+    parts = []
+    imports = [k for k in kinds if k == "unused_import"]
+    n = 0
+    for k in imports:
+        n += 1
+        parts.append(lint_fun(rng, k, n))
+    parts.append(LINT_PRELUDE)
+    for k in kinds:
+        if k == "unused_import":
+            continue
+        n += 1
+        parts.append(lint_fun(rng, k, n))
+        if rng.random() < 0.3:
+            parts.append("\n")
+    return "".join(parts), kinds
